@@ -136,6 +136,30 @@ structure ResW (σ : Type) where
 
 def resWriter {σ : Type} (r : ResW σ) : Writer σ := { st := r.st, write := r.write }
 
+/-- `float64` as the translated code sees it: an abstract carrier `φ` with the operations the Go code performs —
+constants (`lit num den`), `float64(n)`, `int64(x)` / `time.Duration(x)`, the four arithmetic operations and the
+comparisons `<`, `<=`, `==` (`>`, `>=` are these with the operands swapped, `!=` is the negation of `==`: all false,
+resp. true, on NaN as in Go). Nothing is assumed of them: a theorem about translated float code holds for every
+implementation, rounding or exact. -/
+structure FloatI (φ : Type) where
+  lit : Int → Nat → φ
+  ofInt : Int → φ
+  toInt : φ → Int
+  add : φ → φ → φ
+  sub : φ → φ → φ
+  mul : φ → φ → φ
+  div : φ → φ → φ
+  lt : φ → φ → Bool
+  le : φ → φ → Bool
+  eq : φ → φ → Bool
+
+/-- `(*rand.Rand).Float64()`: the generator is the list of the draws still to come (an input of the run); asking for
+more draws than were supplied is running out of fuel, not a behaviour of the code -/
+def rngFloat64 {φ : Type} (rng : List φ) : GoM (φ × List φ) :=
+  match rng with
+  | x :: rest => pure (x, rest)
+  | [] => throw .fuel
+
 /-- The field source of event.go (`*parser.Parser`, which is not translated: the split wrapper `parser.New` installs
 writes to the parser from inside `bufio.Scanner.Scan`): a state, what `Next(&f)` answers — whether there is a field,
 the field variable afterwards, the new state — and what `Err()` answers. `φ` is the field type. -/
